@@ -335,6 +335,10 @@ class ReducerWorld(World):
                 for k in range(min(n, len(recorded))):
                     if not torch.equal(torch.nan_to_num(got[k], nan=-7.0), torch.nan_to_num(recorded[k].to(got.dtype), nan=-7.0)):
                         ctx.fail("dump_order", dict(facts, k=k), f"dump()[{k}] = {got[k].tolist()} but the value recorded {k} steps ago was {recorded[k].tolist()}")
+                with ctx.impl("dump (in-place twin)", facts):
+                    got_tw = twin.dump()
+                if got_tw is None or got_tw.shape != got.shape or not torch.equal(torch.nan_to_num(got_tw, nan=-7.0), torch.nan_to_num(got, nan=-7.0)):
+                    ctx.fail("inplace_twin_differs", dict(facts, op="dump"), "in-place and out-of-place reducers dump different records")
                 if fresh is not None:
                     gf = fresh.dump()
                     if gf is None or gf.shape != got.shape or not torch.equal(torch.nan_to_num(gf, nan=-7.0), torch.nan_to_num(got, nan=-7.0)):
@@ -395,6 +399,10 @@ class ReducerWorld(World):
                     ctx.fail("view_none", facts, "view returned None although observations exist")
                     continue
                 ctx.log("view", op["times"], got)
+                with ctx.impl("view (in-place twin)", dict(facts, form=form)):
+                    got_tw = twin.view(time, **kw)
+                if got_tw is None or got_tw.shape != got.shape or not torch.equal(torch.nan_to_num(got_tw, nan=-7.0), torch.nan_to_num(got, nan=-7.0)):
+                    ctx.fail("inplace_twin_differs", dict(facts, op="view"), "in-place and out-of-place reducers answer a time-indexed view differently")
                 if fresh is not None:
                     gf = fresh.view(time, **kw)
                     if gf is None or gf.shape != got.shape or not torch.equal(torch.nan_to_num(gf, nan=-7.0), torch.nan_to_num(got, nan=-7.0)):
